@@ -89,6 +89,9 @@ def replay_plan(ob):
     t = ob.target or ''
     if ob.label.startswith('C18/'):
         return None
+    if re.search(r'(?:^|[^a-z_])(?:load_keys|load_certs)/', ob.label):
+        # a panic site inside the TLS key / certificate file loaders: battery of file contents against the real functions
+        return 'tls', {'driver': 'tls_files', 'args': {}}, lambda o: bool(o.get('panicked'))
     for key in ('connectors', 'listeners', 'rules'):
         if t.startswith(key + '::'):
             fnname = t.split('::')[1]
